@@ -130,7 +130,9 @@ def ensure_listlike(x, dups=1):
 
 def rotate_local_x_axis(xaxis=(1,0,0), normal=(0,0,1)):
     # rotate xaxis vector back to reference domain (r=1, around origin)
-    theta = atan2(normal[1], normal[0])
+    # (a normal along the z-axis has no azimuth: atan2(0., -0.) would be pi, and the forward
+    #  rotation in flip_and_move_plane_geometry is skipped for such normals)
+    theta = atan2(normal[1], normal[0]) if (normal[0] != 0 or normal[1] != 0) else 0.0
     phi   = atan2(sqrt(normal[0]**2+normal[1]**2), normal[2])
     R1 = rotation_matrix(-theta, (0,0,1))
     R2 = rotation_matrix(-phi,   (0,1,0))
@@ -148,7 +150,7 @@ def flip_and_move_plane_geometry(obj, center=(0,0,0), normal=(0,0,1)):
     # don't touch it if not needed. translate or scale operations may force
     # object into 3D space
     if not np.allclose(normal, np.array([0,0,1])):
-        theta = atan2(normal[1], normal[0])
+        theta = atan2(normal[1], normal[0]) if (normal[0] != 0 or normal[1] != 0) else 0.0
         phi   = atan2(sqrt(normal[0]**2+normal[1]**2), normal[2])
         obj.rotate(phi,   (0,1,0))
         obj.rotate(theta, (0,0,1))
